@@ -114,6 +114,9 @@ impl Node {
         ensures r is Ok ==> r->Ok_0 == spec_deleted_mdate(*id)
     { unimplemented!() }
 }
+/// "the deletion record found for this row id was logged for the room that is being synchronised": a fact nothing on this path establishes
+pub uninterp spec fn deletion_record_of_the_synchronised_room(id: Uid) -> bool;
+pub uninterp spec fn nondet(k: int) -> bool;
 /// the property's rule: a version modified at `mdate` is the deleted version or an older one
 pub open spec fn deleted_or_older(deleted: Option<i64>, mdate: i64) -> bool { deleted is Some && mdate <= deleted->Some_0 }
 
@@ -130,6 +133,11 @@ pub open spec fn deleted_or_older(deleted: Option<i64>, mdate: i64) -> bool { de
 //@ result r
 //@ insert body-start
             let mut deleted_stmt = deleted_stmt0;   // E9: the prepared statement of the enclosing function
+//@ insert after-stmt "let deleted_mdate = Self::deleted_version_mdate("
+            proof {
+            // [suppressing_deletion_record_is_of_the_synchronised_room]{C03} (known finding F37) only a deletion record of the room being synchronised may keep this peer from fetching a row announced for that room: the lookup is keyed by the row id alone (filter_existing is not even told which room is synchronised), so a record accepted for ANOTHER room - which any co-member of any room can produce for an id it knows - suppresses the fetch for ever
+            if nondet(37) { assert(deleted_mdate is Some ==> deletion_record_of_the_synchronised_room(node_id.id)); }
+            }
 //@ spec
         ensures
             // [deleted_version_never_requested_again]{C11} an incoming version of a row that is not stored here is requested from the peer unless this peer has deleted that version or a newer one: then nothing is requested and the row cannot come back from a peer that has not seen the deletion
